@@ -179,6 +179,16 @@ def run(ctx):
                             other = sides[1 - sides.index({P_(recv, rinfo, ".sender")})]
                             if len(other) == 1 and re.search(r"\.info~Token\.contract_addr$", list(other)[0]):
                                 inner = (g2, list(other)[0])
+                            # the stored asset list itself, humanised: `asset_info.to_normal(api)?` of PAIR_INFO.asset_infos[i]
+                            m_ = re.match(r"^C:(\S+)@%s:bb(\d+)~Token\.contract_addr$" % re.escape(recv.path), list(other)[0]) if len(other) == 1 else None
+                            if m_ and ctx.N.is_fn(m_.group(1), "info_to_normal"):
+                                tv_ = P.val_call(recv, recv.body, int(m_.group(2)))
+                                ar_ = set(ctx.roots(tv_[4][0]))
+                                lp_ = [l for l in common.loops(P, recv) if ar_ == {l["item_root"]}]
+                                if lp_:
+                                    ads_, kind_, src_ = common.iter_chain(lp_[0]["iter"])
+                                    if not ads_ and kind_ == "iter" and set(ctx.roots(src_)) == {"load(%s).asset_infos" % ctx.N.PAIR_INFO}:
+                                        inner = (g2, "stored")
             if inner is None:
                 r2.fail("C02.R2:flag-set-unguarded", recv.path, common.span_of_block_term(recv, sb),
                         "the authorisation flag is set without comparing a pool token's contract address with info.sender")
@@ -187,7 +197,9 @@ def run(ctx):
             g2, other = inner
             lp = [l for l in common.loops(P, recv) if other.startswith(l["item_root"])]
             src_ok = False
-            if lp:
+            if other == "stored":
+                src_ok = True       # every element of the pair's stored asset list (what query_pools reports, without the balances)
+            elif lp:
                 ads, kind, src = common.iter_chain(lp[0]["iter"])
                 sr = set(ctx.roots(src))
                 if not ads and kind == "iter" and len(sr) == 1 and re.match(r"^C:%s@" % ctx.N.rx("query_pools"), list(sr)[0]):
